@@ -72,6 +72,11 @@ FILE_NAMES = ["a.py", "b.py", "c.py", "x.py", "ab.py", "main.py", "test_a.py", "
               "test_x_test.py", "mytest_a.py", "s.pyi", "t.pyi", "test_s.pyi", "U.PY", "v.Py", "w.PYI", "notes.txt", "py",
               "README.md", ".h.py", "conftest.py", "setup.py", "a.py.bak", "x.pyc", "mod.pyx", "a.b.py", "testa.py",
               "q.pyi.py", "py.py", "tests.py"]
+# names in the 'wrong' position: plain files called like directories the walk prunes (vendor / build / hidden directories) or like ordinary
+# directories, and directories called like Python files (the systematic version, over the skip list the code has now, is part B3)
+DIRLIKE_FILE_NAMES = ["build", "Build", "dist", "env", "ENV", "venv", "node_modules", "__pycache__", "x.egg-info", "Y.Egg-Info", ".git", ".venv", ".hid",
+                      ".tox", "sub", "src", "tests", "build.py", "venv.py", "dist.pyi", "__pycache__.py", "x.egg-info.py", "ENV.PY"]
+FILELIKE_DIR_NAMES = ["mod.py", "a.py", "test_d.py", "s.pyi", "U.PY", ".h.py", "notes.txt"]
 INCLUDES = [None, ["**/*.py"], ["*.py"], [], ["src/**"], ["src/**/*.py", "pkg/**/*.py"], ["?.py"], ["a.py"], ["**/a.py"],
             ["*.py", "*.pyi"], ["sub/*.py"], ["**/sub/**"], ["*/*.py"], ["**"], ["*"], ["**/*.pyi"], ["a/**/b/*.py"],
             ["**/?.p?"], ["src/a.py", "main.py"], ["**/*"], ["*.PY"], ["**/test_*"], ["/**/*.py"], ["./*.py"]]
@@ -99,9 +104,20 @@ def gen_tree(rng, depth, thorough=False, own=None):
         out[n] = ("F", n)
     if rng.random() < 0.5:
         out.setdefault("test_a.py", ("F", "test_a.py"))
+    if rng.random() < 0.3:
+        # a plain file with the name of a pruned / hidden / ordinary directory, with files sorting directly before and after it (they take
+        # the place of other files: the trees keep their size)
+        n = rng.choice(DIRLIKE_FILE_NAMES)
+        for m in [n] + [m for m in (n[:-1] + "-.py", n + "0.py") if rng.random() < 0.5]:
+            if m not in out:
+                if len(out) > 1:
+                    del out[rng.choice(sorted(out))]
+                out[m] = ("F", m)
     if depth > 0:
         nd = rng.randint(0, 4 if depth >= 3 else 3)
         names = rng.sample(DIR_NAMES, nd)
+        if names and rng.random() < 0.25:
+            names[-1] = rng.choice(FILELIKE_DIR_NAMES)      # a directory with the name of a (Python) file
         if own and rng.random() < 0.3:
             names.append(own)       # a directory inside a directory of the same name
         for n in names:
@@ -341,6 +357,9 @@ def glob_differential(ck, thorough):
 # ---------------------------------------------------------------------------------------
 # part B: CollectPythonFiles on real directory trees vs model vs spec
 # ---------------------------------------------------------------------------------------
+BIG_KINDS = ("lattice", "wrongpos")      # cases on one big tree: Coq prints indices into the tree's file list
+
+
 class Case:
     __slots__ = ("tree_id", "root", "children", "cwd", "targets", "inc", "exc", "recursive", "kind", "impl", "model", "mabs", "spec", "known")
 
@@ -419,9 +438,9 @@ def eval_cases(cases):
     impl = lib.driver(reqs)
     jobs, spans = [], []
     # the cases on the big tree of part B2 print indices into the tree's file list (printing long paths is what costs in Coq)
-    big = [c for c in cases if c.kind.startswith("lattice")]
-    small = [c for c in cases if not c.kind.startswith("lattice")]
-    for group, shard in ((small, 60), (big, 30)):
+    big = [c for c in cases if c.kind.startswith(BIG_KINDS)]
+    small = [c for c in cases if not c.kind.startswith(BIG_KINDS)]
+    for group, shard in ((big, 30), (small, 60)):      # the long jobs first
         for off in range(0, len(group), shard):
             chunk = group[off:off + shard]
             defs, items = [], []
@@ -451,7 +470,7 @@ def eval_cases(cases):
         v = byid[id(c)]
         c.impl = r
         c.known = False
-        if c.kind.startswith("lattice"):
+        if c.kind.startswith(BIG_KINDS):
             mabs, spec, pok = v      # Coq prints ((a, b), c) as (a, b, c)
             files = ["/".join([c.root] + list(f)) for f in all_files(c.children)]
             if any(i >= len(files) for i in (mabs[1] if mabs is not None else []) + spec):
@@ -574,7 +593,7 @@ def decide_cases(ck, cases, stats):
         if got:
             stats["nonempty"] += 1
         stats["kinds"][c.kind] = stats["kinds"].get(c.kind, 0) + 1
-        if (c.mabs != locs) if c.kind.startswith("lattice") else (c.model != r["files"]):
+        if (c.mabs != locs) if c.kind.startswith(BIG_KINDS) else (c.model != r["files"]):
             ntie += 1
             if ntie <= 3:
                 ck.broken_ties.append("CollectPythonFiles output differs from Cli/FileSel.v although the selected set is right: targets %s cwd %s: impl %s model %s"
@@ -696,6 +715,85 @@ def lattice_same_verdict(ck, cases, stats):
                                         "selected" if f in sb else "not selected", os.path.relpath(tb, ca.root)), rp)
     stats["lattice_target_pairs"] = npairs
     stats["disagreements"] += nviol
+
+
+# ---------------------------------------------------------------------------------------
+# part B3: names in the 'wrong' position — a plain file (or link) called like a directory the walk prunes, a directory called like a Python file
+# ---------------------------------------------------------------------------------------
+def skip_name_variants():
+    """Every entry of file_reader.go's skip list as the code has it now (Gen/FileSelConst.v filesel_skip_dirs) as concrete names: a '*' of
+    the entry filled with 'x' and with nothing; as written and, unless hidden, upper-cased (the list is matched
+    case-insensitively, and the variants sort at different places among their siblings)."""
+    out = []
+    for s in gen_const("filesel_skip_dirs"):
+        for n in ([s.replace("*", "x"), s.replace("*", "")] if "*" in s else [s]):
+            for v in ((n,) if n.startswith(".") else (n, n.upper())):      # a hidden name is hidden in every case
+                if v and v not in out and "/" not in v:
+                    out.append(v)
+    return out
+
+
+def wrongpos_dir(s):
+    """Entries of one directory around the name s, which is held by a plain non-Python FILE: Python files and sub-directories that sort
+    directly before it (s without its last character + '-...': '-' is smaller than every character a skip name ends in) and directly after it
+    (s + '...': s is a proper prefix), at the two ends of the byte order ('-0.py', '-d/' / '~z.py', '~d/'), s + '.py' (a Python file called
+    like the directory), a directory called like a Python file, a hidden file next to a hidden directory, and s again as a file one, two and
+    three levels down (~d/~d/~d) with siblings on both sides.  Nothing here is pruned by a FILE called s: the expected set is the specification's."""
+    stem = s[:-1]
+
+    def inner(levels):
+        cs = [("F", stem + "-a.py"), ("F", s), ("F", s + "0.py"), ("D", s + "-sub", [("F", "w.py")])]
+        if levels > 1:
+            cs.append(("D", "~d", inner(levels - 1)))
+        return sorted(cs, key=lambda x: x[1].encode())
+    cs = [("F", "-0.py"), ("D", "-d", [("F", "x.py")]),
+          ("F", stem + "-b.py"), ("D", stem + "-d", [("F", "u.py")]),
+          ("F", s),
+          ("F", s + ".py"), ("F", s + "0.py"), ("D", s + "-d", [("F", "test_y.py"), ("F", "y.py")]),
+          ("D", "mod.py", [("F", "inner.py")]),
+          ("F", ".hfile"), ("F", ".hfile.py"), ("D", ".hdir", [("F", "h.py")]),
+          ("F", "~z.py"), ("D", "~d", inner(3))]
+    return sorted(cs, key=lambda c: c[1].encode())
+
+
+def wrongpos_tree(base, variants):
+    """proj/k<i>/ = wrongpos_dir(variant i), between two Python files."""
+    level = sorted([("D", "k%02d" % i, wrongpos_dir(s)) for i, s in enumerate(variants)] + [("F", "aa.py"), ("F", "zz.py")], key=lambda c: c[1].encode())
+    root = os.path.join(base, "wrongpos", "proj")
+    materialize(root, level)
+    return root, level
+
+
+def wrongpos_cases(ck, base, d_inc, d_exc, stats):
+    """The name s of the skip list held by a FILE at depth 0..3 below the target: every k<i> as the target (recursive and not; spelled '.',
+    from the project root, absolutely, through '..', with a trailing slash), its sub-directory ~d, and two k<i> in one target list.
+    (The project root as the target: through the command, part D, on a tree with some of the names — on this tree Coq would take seconds per case.)"""
+    variants = skip_name_variants()
+    root, children = wrongpos_tree(base, variants)
+    cases = []
+
+    def add(kind, cwd, targets, inc, exc, rec):
+        c = Case()
+        c.tree_id, c.root, c.children, c.cwd, c.targets = 100001, root, children, cwd, targets
+        c.inc, c.exc, c.recursive, c.kind = inc, exc, rec, kind
+        cases.append(c)
+    cfgs = [(d_inc, d_exc), (["**"], []), (["*.py", "*.pyi"], ["test_*"])]
+    for i, s in enumerate(variants):
+        k = "k%02d" % i
+        tdir = os.path.join(root, k)
+        sps = [(tdir, "."), (root, k), (os.path.join(root, "k00"), tdir), (os.path.join(tdir, "~d"), ".."), (root, k + "/")]
+        inc, exc = cfgs[i % 3]
+        cwd, sp = sps[i % 5]
+        add("wrongpos-dir", cwd, [sp], inc, exc, True)
+        cwd, sp = sps[(i + 2) % 5]
+        add("wrongpos-nonrecursive", cwd, [sp], inc, exc, False)
+        cwd, sp = sps[(i + 1) % 5]
+        add("wrongpos-below", cwd, [os.path.normpath(os.path.join(sp, "~d")) if sp != "." else "~d"], cfgs[(i + 1) % 3][0], cfgs[(i + 1) % 3][1], True)
+        if i % 3 == 0:
+            add("wrongpos-multi", root, [k, "./k%02d/" % ((i + 7) % len(variants))], inc, exc, True)
+    stats["wrongpos_names"] = len(variants)
+    stats["wrongpos_files_named_like_a_pruned_directory"] = sum(1 for f in all_files(children) if f[-1] in variants)
+    return cases
 
 
 # ---------------------------------------------------------------------------------------
@@ -845,6 +943,14 @@ def e2e(ck, rng, n_trees, stats, d_inc, d_exc, thorough):
         for cwd, tg in ((xroot, ["."]), (os.path.join(xroot, "pkg"), ["."]), (xroot, ["pkg/deep"])):
             runs.append((99, xroot, xchildren, cwd, tg, inc, exc, True, cfg, None))
             stats["e2e_full_syntax_runs"] = stats.get("e2e_full_syntax_runs", 0) + 1
+    # names in the wrong position (part B3) through the command: some names of the skip list held by plain files, judged from the project
+    # root, from the directory above them and from their own directory
+    wvars = rng.sample(skip_name_variants(), 2 if not thorough else 12)
+    wroot, wchildren = wrongpos_tree(os.path.join(base, "ew"), wvars)
+    for cwd, tg in [(wroot, ["."])] + ([(wroot, ["k%02d" % (len(wvars) - 1), "k%02d/~d" % (len(wvars) - 2)])] if thorough else []) \
+            + [(os.path.join(wroot, "k%02d" % i), ["."]) for i in range(len(wvars) if thorough else 0)]:
+        runs.append((98, wroot, wchildren, cwd, tg, d_inc, d_exc, True, None, None))
+        stats["e2e_wrongpos_runs"] = stats.get("e2e_wrongpos_runs", 0) + 1
     # which configuration is in force for a run: the rule of C17 (--config, else the nearest file at or above the target, else none),
     # read by c17.py_spec_resolve; for the selection of files the working directory is never consulted (its chain is passed empty)
     def in_force(root, cwd, tg, cfgpath, own, foreign):
@@ -1010,6 +1116,13 @@ LINK_TREES = [
     ("none", [("L", "a_gone.py", "dangling", []), ("F", "z.py"), ("L", "zz_gone.py", "dangling", [])]),
     ("none", [("F", "a.py"), ("L", "gone.txt", "dangling", []), ("L", "test_gone.py", "dangling", []), ("L", ".hid.py", "dangling", [])]),
     ("dir-link", [("F", "a.py"), ("L", "mod.py", "dir", [("F", "x.py")])]),
+    # links called like a pruned directory (to a file, to a directory, dangling), with Python files and directories sorting before and after
+    # them: a link is no directory to prune; whatever it is, its siblings are analysed
+    ("none", [("F", "a.py"), ("L", "build", "file", []), ("F", "c.py"), ("D", "zz", [("F", "d.py")]), ("L", "venv", "dangling", []), ("F", "x.py")]),
+    ("dir-link", [("F", "a.py"), ("L", "dist", "dir", [("F", "e.py")]), ("L", "env", "dir", [("F", "e2.py")]), ("F", "m.py"),
+                  ("D", "sub", [("F", "b.py"), ("L", "node_modules", "dir", [("F", "n.py")]), ("L", "x.egg-info", "file", []), ("F", "y.py")])]),
+    ("file-link", [("F", "a.py"), ("L", "build.py", "file", []), ("L", "__pycache__", "file", []), ("F", "c.py"), ("L", ".venv", "file", []),
+                   ("D", "pkg", [("L", "ENV", "file", []), ("F", "p.py")])]),
 ]
 
 
@@ -1447,6 +1560,7 @@ def main(tier):
             stats["disagreements"] += bad + gstats["glob_mismatches"]
             cases = make_cases(rng, ck, 400 if thorough else 70, 14 if thorough else 9, thorough, d_inc, d_exc)
             cases += lattice_cases(ck, lib.fresh_dir("c18_lattice"))
+            cases += wrongpos_cases(ck, lib.fresh_dir("c18_wrongpos"), d_inc, d_exc, stats)
             eval_cases(cases)
             decide_cases(ck, cases, stats)
             lattice_same_verdict(ck, cases, stats)
@@ -1481,7 +1595,16 @@ def main(tier):
                 "(star, ?, class, range, both negations, alternatives nested / with wildcards / with classes / with an empty alternative, "
                 "escapes, **) x as the only exclude and as the only include x every target level (root, pkg, pkg/deep, pkg/deep/er, a; spelled "
                 "from the root and as '.' from inside): every (pattern, path) pair decided against spec_list, and for patterns without '/' "
-                "the same file must be selected through every target above it; all decided against spec_list (proved = sel_spec), "
+                "the same file must be selected through every target above it; names in the wrong position: for every entry of the code's "
+                "skip list (Gen/FileSelConst.v; '*' filled with 'x' and with nothing; as written and upper-cased) a directory holding a plain "
+                "non-Python FILE of that name, Python files and sub-directories sorting directly before and directly after it and at both ends of the "
+                "byte order, <name>.py, a directory called mod.py, a hidden file next to hidden directories, and the "
+                "name again as a file one, two and three levels down, x the directory itself as target (recursive and not; '.', relative, absolute, '..', "
+                "trailing slash), its sub-directory, two of them in one target list (the file at depth 0..3 below the target; from the project root "
+                "above them through pyscn analyze); "
+                "the generated trees also draw files called like pruned / hidden / ordinary directories (with neighbours on both sides) and "
+                "directories called like files; link trees with links (file / directory / dangling) called build, dist, env, venv, node_modules, "
+                "x.egg-info, __pycache__, .venv between Python files and directories; all decided against spec_list (proved = sel_spec), "
                 "implementation list compared with the model list; e2e: pyscn analyze --json --select complexity with default patterns and "
                 "with patterns of both syntaxes from -c / .pyscn.toml / pyproject.toml (pyscn analyze has no pattern flags), the full-syntax "
                 "lists judged from the project root, from pkg and for the target pkg/deep; every tree also from a working directory that is not "
@@ -1509,6 +1632,9 @@ def main(tier):
                                    e2e_runs=stats["e2e_runs"], e2e_empty=stats["e2e_empty"],
                                    e2e_full_syntax_runs=stats.get("e2e_full_syntax_runs", 0),
                                    **{k: v for k, v in sorted(stats.items()) if k.startswith("e2e_foreign_cwd")},
+                                   wrongpos_names=stats.get("wrongpos_names", 0),
+                                   wrongpos_files_named_like_a_pruned_directory=stats.get("wrongpos_files_named_like_a_pruned_directory", 0),
+                                   e2e_wrongpos_runs=stats.get("e2e_wrongpos_runs", 0),
                                    lattice_patterns=len(LATTICE_SLASHLESS) + len(LATTICE_PATHS), lattice_target_pairs=stats.get("lattice_target_pairs", 0),
                                    **{"linkmatrix_" + k: v for k, v in sorted(stats.get("linkmatrix", {}).items())},
                                    known_link_cases=stats.get("known_link_cases", 0), known_dir_link_target_cases=stats.get("known_dir_link_target_cases", 0),
